@@ -43,6 +43,10 @@ class VersionConverter(object):
         parser = ET.XMLParser(remove_blank_text=True)
         if isinstance(self.filename, io.StringIO):
             doc = self.filename.getvalue()
+            # The text is already decoded; lxml refuses text that still carries
+            # an XML declaration with an encoding.
+            if doc.lstrip().startswith("<?xml") and "?>" in doc:
+                doc = doc[doc.index("?>") + 2:]
             tree = ET.ElementTree(ET.fromstring(doc, parser))
 
         elif os.path.exists(self.filename) and os.path.getsize(self.filename) > 0:
